@@ -27,7 +27,9 @@ type lockState struct {
 	writer  bool
 	readers int
 	name    string
-	other   bool // currently held by another (modelled) thread that will release it: Lock waits, TryLock fails
+	other   bool   // currently held by another (modelled) thread that will release it: Lock waits, TryLock fails
+	wBy     int    // thread that holds it for writing (valid while writer)
+	rdBy    [2]int // read holds per thread (0 = the running operation, 1 = the interleaved one)
 }
 
 func (m *Machine) newErr(name string) Val {
@@ -352,9 +354,30 @@ func init() {
 			m.preemptAt, m.preemptFn, m.lockAcq, m.preemptRan = int(k.C), &f, 0, false
 			return nil
 		},
+		// Yield: a point inside a long-running environment call (a download) at which another operation may run
+		vrt + "Yield": func(m *Machine, a []Val) Val {
+			if m.cur == 1 {
+				m.co.yield <- coMsg{kind: 3}
+				if !<-m.co.resume {
+					panic(coKill{})
+				}
+				return nil
+			}
+			m.maybePreempt()
+			return nil
+		},
+		vrt + "SpawnAsThread": func(m *Machine, a []Val) Val { m.spawnAsThread = a[0].(Bool).C; return nil },
+		vrt + "JoinThread": func(m *Machine, a []Val) Val {
+			ran := m.co != nil
+			m.finishCo()
+			m.co = nil
+			return CB(ran)
+		},
 		vrt + "PreemptRan": func(m *Machine, a []Val) Val {
 			r := m.preemptRan
 			m.preemptFn = nil
+			m.finishCo()
+			m.co = nil
 			return CB(r)
 		},
 		vrt + "KeepSymbolicBounds": func(m *Machine, a []Val) Val { m.keepSymBounds = a[0].(Bool).C; return nil },
@@ -545,12 +568,7 @@ func init() {
 			m.maybePreempt()
 			c, ls := m.lockOf(a[0])
 			ls.other = false // waits until the other thread has released it
-			if ls.writer || ls.readers > 0 {
-				m.blockedOnOther(c)
-				m.ex.Fail("deadlock:Lock of a mutex already held (" + ls.name + ") in " + m.where())
-			}
-			ls.writer = true
-			m.acquired(c, ls, true)
+			m.lockWrite(c, ls, "mutex")
 			return nil
 		},
 		"(*sync.Mutex).TryLock": func(m *Machine, a []Val) Val {
@@ -559,7 +577,7 @@ func init() {
 			if ls.writer || ls.readers > 0 || ls.other {
 				return CB(false)
 			}
-			ls.writer = true
+			ls.writer, ls.wBy = true, m.cur
 			m.acquired(c, ls, true)
 			return CB(true)
 		},
@@ -569,7 +587,7 @@ func init() {
 			if ls.writer || ls.readers > 0 {
 				return CB(false)
 			}
-			ls.writer = true
+			ls.writer, ls.wBy = true, m.cur
 			m.acquired(c, ls, true)
 			return CB(true)
 		},
@@ -580,6 +598,7 @@ func init() {
 				return CB(false)
 			}
 			ls.readers++
+			ls.rdBy[m.cur]++
 			m.acquired(c, ls, false)
 			return CB(true)
 		},
@@ -595,12 +614,7 @@ func init() {
 		"(*sync.RWMutex).Lock": func(m *Machine, a []Val) Val {
 			m.maybePreempt()
 			c, ls := m.lockOf(a[0])
-			if ls.writer || ls.readers > 0 {
-				m.blockedOnOther(c)
-				m.ex.Fail("deadlock:Lock of an RWMutex already held (" + ls.name + ") in " + m.where())
-			}
-			ls.writer = true
-			m.acquired(c, ls, true)
+			m.lockWrite(c, ls, "RWMutex")
 			return nil
 		},
 		"(*sync.RWMutex).Unlock": func(m *Machine, a []Val) Val {
@@ -615,27 +629,29 @@ func init() {
 		"(*sync.RWMutex).RLock": func(m *Machine, a []Val) Val {
 			m.maybePreempt()
 			c, ls := m.lockOf(a[0])
-			if ls.writer {
-				m.blockedOnOther(c)
-				m.ex.Fail("deadlock:RLock of an RWMutex write-held by the same goroutine (" + ls.name + ") in " + m.where())
+			for ls.writer {
+				if ls.wBy == m.cur {
+					m.ex.Fail("deadlock:RLock of an RWMutex write-held by the same goroutine (" + ls.name + ") in " + m.where())
+				}
+				m.waitForOther(c, ls)
 			}
-			if ls.readers > 0 {
+			if ls.rdBy[m.cur] > 0 {
 				// recursive read locking: sync.RWMutex forbids it - as soon as a writer is waiting between the
 				// two acquisitions the second RLock queues behind the writer and the goroutine never returns
-				if _, byOther := m.preHeld[c]; !(m.inPreempt && byOther) {
-					m.ex.Fail("deadlock:recursive RLock of an RWMutex already read-held by the same goroutine (" + ls.name + "): blocks forever once a writer waits, in " + m.where())
-				}
+				m.ex.Fail("deadlock:recursive RLock of an RWMutex already read-held by the same goroutine (" + ls.name + "): blocks forever once a writer waits, in " + m.where())
 			}
 			ls.readers++
+			ls.rdBy[m.cur]++
 			m.acquired(c, ls, false)
 			return nil
 		},
 		"(*sync.RWMutex).RUnlock": func(m *Machine, a []Val) Val {
 			c, ls := m.lockOf(a[0])
-			if ls.readers == 0 {
+			if ls.readers == 0 || ls.rdBy[m.cur] == 0 {
 				m.rtPanic("RUnlock of unlocked RWMutex")
 			}
 			ls.readers--
+			ls.rdBy[m.cur]--
 			m.released(c, ls, false)
 			return nil
 		},
@@ -1158,6 +1174,7 @@ func (m *Machine) released(c *Cell, ls *lockState, write bool) {
 	if m.trace != nil {
 		m.trace.lockEvent(m, c, ls, false, write)
 	}
+	m.afterRelease(c)
 }
 
 var _ = types.Typ
@@ -1180,10 +1197,49 @@ func (m *Machine) functionExists(name string) bool {
 	return fnIndex[name]
 }
 
-// maybePreempt: called before every lock acquisition attempt of the preempted thread A. At its k-th
-// attempt the registered operation B runs to completion (a context switch at a lock boundary).
+// ---- two operations: the running one (thread 0) and an interleaved one (thread 1, a coroutine) ----
+//
+// maybePreempt: called before every lock acquisition attempt (and at every Yield) of thread 0. At its
+// k-th such point the registered operation B starts running as thread 1. B runs until it returns or
+// until it needs a lock thread 0 holds; then thread 0 continues, and B is resumed the moment that
+// lock is released (or when thread 0's operation has returned). So B either completes at the switch
+// point or waits there exactly as long as it has to. If thread 0 in turn needs a lock the waiting B
+// holds, the two wait for each other: a deadlock (lock-order inversion), reported as a violation.
+
+type coKill struct{}
+
+type coMsg struct {
+	kind int // 0 done, 1 blocked, 2 panic
+	pan  interface{}
+	lock *Cell
+}
+
+type threadCtx struct {
+	frames    []*frame
+	callStack []string
+	depth     int
+	heldOrder []*Cell
+	curPanic  *goPanic
+	trace     *OpTrace
+}
+
+type coroutine struct {
+	resume    chan bool
+	yield     chan coMsg
+	done      bool
+	blockedOn *Cell
+	ctx       threadCtx
+}
+
+func (m *Machine) saveCtx() threadCtx {
+	return threadCtx{m.frames, m.callStack, m.depth, m.heldOrder, m.curPanic, m.trace}
+}
+func (m *Machine) loadCtx(c threadCtx) {
+	m.frames, m.callStack, m.depth, m.heldOrder, m.curPanic, m.trace = c.frames, c.callStack, c.depth, c.heldOrder, c.curPanic, c.trace
+}
+
 func (m *Machine) maybePreempt() {
-	if m.preemptFn == nil || m.inPreempt {
+	if m.preemptFn == nil || m.cur != 0 || m.co != nil {
 		return
 	}
 	k := m.lockAcq
@@ -1192,39 +1248,124 @@ func (m *Machine) maybePreempt() {
 		return
 	}
 	f := *m.preemptFn
-	m.inPreempt = true
 	m.preemptRan = true
-	m.preHeld = map[*Cell]lockState{}
-	for c, ls := range m.locks {
-		if ls.writer || ls.readers > 0 {
-			m.preHeld[c] = *ls
-		}
-	}
-	held := m.heldOrder
-	m.heldOrder = nil
-	tr := m.trace
-	m.trace = nil
-	m.callFunction(f.Fn, nil, f.Env)
-	m.trace = tr
-	// B must have released what it took: the lock table is as it was
-	for c, ls := range m.locks {
-		was := m.preHeld[c]
-		if ls.writer != was.writer || ls.readers != was.readers {
-			m.ex.Fail("lock-leak: the interleaved operation returned holding " + ls.name)
-		}
-	}
-	m.heldOrder = held
-	m.inPreempt = false
-	m.preHeld = nil
+	m.startCo(func() { m.callFunction(f.Fn, nil, f.Env) })
 }
 
-// blockedOnOther: inside a preempted run, an acquisition that conflicts with a lock the suspended thread
-// A holds would block until A continues - this schedule (B completing before A resumes) does not exist.
-func (m *Machine) blockedOnOther(c *Cell) {
-	if m.inPreempt {
-		if _, ok := m.preHeld[c]; ok {
-			panic(pathEnd{"interleaving not schedulable: the interleaved operation blocks on a lock the suspended one holds"})
+// startCo starts body as thread 1 and runs it until it returns, waits for a lock, or pauses.
+func (m *Machine) startCo(body func()) {
+	co := &coroutine{resume: make(chan bool), yield: make(chan coMsg)}
+	m.co = co
+	go func() {
+		if !<-co.resume {
+			return
 		}
+		defer func() {
+			r := recover()
+			if _, killed := r.(coKill); killed {
+				return
+			}
+			if r != nil {
+				co.yield <- coMsg{kind: 2, pan: r}
+				return
+			}
+			co.yield <- coMsg{kind: 0}
+		}()
+		body()
+	}()
+	m.switchToB()
+}
+
+// switchToB hands the processor to thread 1 until it returns, blocks or fails.
+func (m *Machine) switchToB() {
+	co := m.co
+	saved := m.saveCtx()
+	m.loadCtx(co.ctx)
+	m.cur = 1
+	co.blockedOn = nil
+	co.resume <- true
+	msg := <-co.yield
+	co.ctx = m.saveCtx()
+	m.loadCtx(saved)
+	m.cur = 0
+	switch msg.kind {
+	case 0:
+		co.done = true
+		for _, ls := range m.locks {
+			if (ls.writer && ls.wBy == 1) || ls.rdBy[1] > 0 {
+				m.ex.Fail("lock-leak: the interleaved operation returned holding " + ls.name)
+			}
+		}
+	case 1:
+		co.blockedOn = msg.lock
+	case 2:
+		co.done = true
+		panic(msg.pan)
+	case 3: // paused in a long environment call: runnable whenever the other thread cannot go on
+	}
+}
+
+// killCo ends a coroutine that is still parked when the path is over.
+func (m *Machine) killCo() {
+	if m.co != nil && !m.co.done {
+		m.co.done = true
+		select {
+		case m.co.resume <- false:
+		default:
+		}
+	}
+}
+
+// waitForOther: the current thread needs a lock the other thread holds.
+func (m *Machine) waitForOther(c *Cell, ls *lockState) {
+	if m.cur == 1 {
+		// the interleaved operation waits; the suspended one goes on until it releases the lock
+		m.co.yield <- coMsg{kind: 1, lock: c}
+		if !<-m.co.resume {
+			panic(coKill{})
+		}
+		return
+	}
+	if m.co != nil && !m.co.done && m.co.blockedOn == nil {
+		// the other thread is merely paused (long I/O) while holding the lock: it goes on now
+		m.switchToB()
+		return
+	}
+	if m.co != nil && !m.co.done && m.co.blockedOn != nil {
+		m.ex.Fail("deadlock: lock-order inversion - one operation holds " + ls.name + " and waits for " + m.locks[m.co.blockedOn].name + ", the other one holds that and waits for " + ls.name + ", in " + m.where())
+	}
+	m.ex.Fail("deadlock:Lock of a lock already held (" + ls.name + ") in " + m.where())
+}
+
+// lockWrite: exclusive acquisition with waiting.
+func (m *Machine) lockWrite(c *Cell, ls *lockState, kind string) {
+	for ls.writer || ls.readers > 0 {
+		if (ls.writer && ls.wBy == m.cur) || ls.rdBy[m.cur] > 0 {
+			m.ex.Fail("deadlock:Lock of a " + kind + " already held by the same goroutine (" + ls.name + ") in " + m.where())
+		}
+		m.waitForOther(c, ls)
+	}
+	ls.writer, ls.wBy = true, m.cur
+	m.acquired(c, ls, true)
+}
+
+// afterRelease: thread 0 released a lock; if thread 1 waits for it and can have it now, it runs.
+func (m *Machine) afterRelease(c *Cell) {
+	if m.cur != 0 || m.co == nil || m.co.done || m.co.blockedOn != c {
+		return
+	}
+	m.switchToB()
+}
+
+// finishCo: thread 0's operation has returned; a waiting thread 1 runs to its end now.
+func (m *Machine) finishCo() {
+	for m.co != nil && !m.co.done {
+		if b := m.co.blockedOn; b != nil {
+			if ls := m.locks[b]; ls != nil && ((ls.writer && ls.wBy == 0) || ls.rdBy[0] > 0) {
+				m.ex.Fail("deadlock: the interleaved operation waits for " + ls.name + ", which the finished operation never released")
+			}
+		}
+		m.switchToB()
 	}
 }
 
